@@ -54,6 +54,9 @@ def w_insert(idx):
         names_sigma = set(G["dfa_sigma"].get(unit, ()))
         if i % 5 == 0:           # the one foreign name of the model realised by names that mean something to string formatting
             cases += [(c01.FOREIGN, [], "foreign:" + h) for h in HOSTILE_FOREIGN if h not in names_sigma]
+            # ... and by look-alikes of the names the rule does allow
+            cases += [(c01.FOREIGN, [], "foreign:" + h) for a in sorted(x for x in names_sigma if not x.startswith("~"))[:2]
+                      for h in ("{u}" + a, "x}" + a, "x:" + a, a + " ", a.capitalize(), a + "s") if h not in names_sigma]
         for c, acc, same_id in cases:
             fname = None
             if same_id and same_id.startswith("foreign:"):
@@ -121,7 +124,8 @@ def run(rep, tier, seed):
         names = set(u["names"])
         robj = rule.Rule(unit)
         declared = set(u["order"])
-        for nm in sorted(declared | names | {c01.FOREIGN_NAME, "zzOther"}):
+        lookalikes = {v for a in sorted(names)[:4] for v in ("{u}" + a, "x}" + a, "x:" + a, a + " ", " " + a, a.capitalize(), a[:-1], a + "s", a.upper())} - names - declared
+        for nm in sorted(declared | names | {c01.FOREIGN_NAME, "zzOther", "", "%s"} | lookalikes):
             nA += 1
             try:
                 got = robj.is_allowed_child(nm)
